@@ -3,7 +3,7 @@ from .histcommon import *
 ID = 'C07'
 LEVEL = 'model_checking'
 BUDGET = {'quick': 290, 'thorough': 3300}
-BOUNDS = {'quick': 'every frame/point-column/channel-column call in all histories of depth 2 (56 operations, 6 start states): object states declared/undeclared x rates set/unset x data present/absent, deviations one point/channel/frame/sub-frame too few/many, renamed (symbolic name, all names != labels), duplicated, empty',
+BOUNDS = {'quick': 'every frame/point-column/channel-column call in all histories of depth 2 (56 operations, 7 start states (6 in the quick tier)): object states declared/undeclared x rates set/unset x data present/absent, deviations one point/channel/frame/sub-frame too few/many, renamed (symbolic name, all names != labels), duplicated, empty',
           'thorough': 'depth 3'}
 OUTSIDE = 'deviations not in the alphabet (e.g. two deviations at once beyond those listed); sub-frame-count deviations of frame() (the documented contract is silent); histories deeper than the bound'
 ASSUMPTIONS = ['the contract model oracle/contract.py restates include/ezc3d.h:353-429 and the C07 statement; where several refusal reasons hold, any of their classes is accepted']
